@@ -63,6 +63,9 @@ AccAlg   == -900      \* matrix identities of the fitted state, Hermite orthonor
 \* series of up to 40 terms, cancellation measured 1.4e-9 of the spread at order 40
 AccSeries == -600
 AlgAcc(name) == IF name = "psi-explains" THEN AccSeries ELSE AccAlg
+\* normal scores: y = G^-1(k / (n+1)); the rank k is recovered as G(y) (n+1), to be an integer within 1e-3
+\* (measured 2.4e-7, the accuracy of the library's inverse Gaussian cdf)
+AccRank == -300
 ExactZero == -9999    \* code of an error that is exactly 0
 
 -----------------------------------------------------------------------------
@@ -288,6 +291,15 @@ SameAs(kind, st, k) ==
 \cup (IF IsIdentityNF(kind, key.base, key.nf) THEN {DRef(key.base)} ELSE {})
 
 -----------------------------------------------------------------------------
+(* Validity domain of one application, as REPORTED by the fitted object: for *)
+(* the anamorphoses the intersection of the practical and of the absolute    *)
+(* interval (raw side for fwd, Gaussian side for inv; AnamHermite may report *)
+(* absolute bounds narrower than the practical ones when the expansion       *)
+(* oscillates in the tails); everything for PCA / MAF / normal score /        *)
+(* rotation.  An element that is masked, undefined or outside the domain at  *)
+(* some step is never compared afterwards (the harness reports the mask,     *)
+(* TraceTransforms checks that it is not shrunk where no restriction exists). *)
+(*                                                                         *)
 (* Monotonicity demanded of one application (its validity domain only):     *)
 (*  "iso"    the rank pattern of the output equals that of the input         *)
 (*  "weak"   non-decreasing, equal inputs give equal outputs                 *)
